@@ -118,12 +118,40 @@ impl LruPageCache {
         Err(ZiporaError::invalid_data("Real file descriptor support not yet implemented. Use open_file() for real files or fd=-1 for virtual files.".to_string()))
     }
     
+    /// Number of bytes of a file that the pages a `PageId` can name cover
+    const ADDRESSABLE_BYTES: u64 = (PageId::MAX as u64 + 1) * PAGE_SIZE as u64;
+    
+    /// First and last page of the byte range `offset..end_offset`, computed in 64 bits
+    /// (a cast of `offset / PAGE_SIZE` to the 32-bit `PageId` takes page 2^32 + n for
+    /// page n). `None`: the range starts beyond the last page a `PageId` can name.
+    fn page_span(offset: u64, end_offset: u64) -> Option<(PageId, PageId)> {
+        let first = offset / PAGE_SIZE as u64;
+        let last = end_offset.saturating_sub(1) / PAGE_SIZE as u64;
+        if first > PageId::MAX as u64 {
+            return None;
+        }
+        Some((first as PageId, std::cmp::min(last, PageId::MAX as u64) as PageId))
+    }
+    
     /// Read data from cache or load it from file
     pub fn read(&self, file_id: FileId, offset: u64, length: usize) -> Result<CacheBuffer> {
         // Calculate which pages we need
-        let start_page = FileManager::offset_to_page_id(offset);
         let end_offset = offset.saturating_add(length as u64);
-        let end_page = FileManager::offset_to_page_id(end_offset.saturating_sub(1));
+        // Bytes of a file beyond the pages a PageId can name cannot be cached:
+        // a request for such bytes is refused rather than answered short
+        if end_offset > Self::ADDRESSABLE_BYTES
+            && self.file_manager.file_size(file_id)
+                .map_or(false, |size| size > std::cmp::max(offset, Self::ADDRESSABLE_BYTES))
+        {
+            return Err(ZiporaError::invalid_data(format!(
+                "Read of {} bytes at offset {} reaches beyond the bytes of a file the cache can address", length, offset
+            )));
+        }
+        let (start_page, end_page) = match Self::page_span(offset, end_offset) {
+            Some(span) => span,
+            // the range starts beyond the end of any file the cache can address
+            None => return Ok(CacheBuffer::new()),
+        };
         
         let mut result_buffer = CacheBuffer::new();
         let mut current_offset = offset;
@@ -270,9 +298,11 @@ impl LruPageCache {
     /// Prefetch pages for better performance
     pub fn prefetch(&self, file_id: FileId, offset: u64, length: usize) -> Result<()> {
         // Calculate pages to prefetch
-        let start_page = FileManager::offset_to_page_id(offset);
         let end_offset = offset.saturating_add(length as u64);
-        let end_page = FileManager::offset_to_page_id(end_offset.saturating_sub(1));
+        let (start_page, end_page) = match Self::page_span(offset, end_offset) {
+            Some(span) => span,
+            None => return Ok(()),
+        };
         
         // Prefetch each page (load into cache without returning data)
         for page_id in start_page..=end_page {
@@ -316,9 +346,11 @@ impl LruPageCache {
     
     /// Invalidate a range of pages
     pub fn invalidate_range(&self, file_id: FileId, start_offset: u64, length: usize) -> Result<()> {
-        let start_page = FileManager::offset_to_page_id(start_offset);
         let end_offset = start_offset.saturating_add(length as u64);
-        let end_page = FileManager::offset_to_page_id(end_offset.saturating_sub(1));
+        let (start_page, end_page) = match Self::page_span(start_offset, end_offset) {
+            Some(span) => span,
+            None => return Ok(()),
+        };
         
         for page_id in start_page..=end_page {
             self.invalidate_page(file_id, page_id)?;
